@@ -509,6 +509,17 @@ func init() {
 				n.P = append(n.P, nrm)
 				n.F = append(n.F, nrm.Dot(v3(c))+d*nrm.Norm())
 			}
+			// rescaled constraints, as in 3D
+			if rapid.IntRange(0, 2).Draw(g.t, lab+".rescale") == 0 {
+				common := rapid.Bool().Draw(g.t, lab+".rescale.common")
+				e := rapid.IntRange(-6, 8).Draw(g.t, lab+".rescale.exp")
+				for i := range n.P {
+					if !common {
+						e = rapid.IntRange(-6, 8).Draw(g.t, fmt.Sprintf("%s.rescale.e%d", lab, i))
+					}
+					n.I = append(n.I, e)
+				}
+			}
 			return n
 		},
 		build: func(b *built) {
@@ -522,7 +533,8 @@ func init() {
 				start = 4
 			}
 			for i := start; i < len(ns); i++ {
-				poly = append(poly, &model2d.LinearConstraint{Normal: c2(ns[i]), Max: fs[i]})
+				f := polyRescale(b.n, i)
+				poly = append(poly, &model2d.LinearConstraint{Normal: c2(ns[i].Scale(f)), Max: fs[i] * f})
 			}
 			b.set2(poly.Solid())
 			slack := func(p kit.V3) float64 {
